@@ -263,18 +263,20 @@ class MathExpression(BinaryTreeNode["MathExpression"]):
         (MathExpression): The cloned node.
         """
         node = node if node is not None else self
-        self.cloned_node = None
-        self.cloned_target = node.path_to_root()
+        # The target marker lives on the node being located (clone() checks the
+        # marker of the node it is copying), not on the node the call was made on.
+        node.cloned_node = None
+        node.cloned_target = node.path_to_root()
         result = node.get_root().clone()
-        if not self.cloned_node:  # pragma: nocover
+        if not node.cloned_node:  # pragma: nocover
             print("While cloning root of: {}".format(node))
             print(" Which is this       : {}".format(node.get_root()))
-            print("Did not set the clone: {}".format(self.cloned_node))
+            print("Did not set the clone: {}".format(node.cloned_node))
             raise Exception("cloning root hierarchy did not clone this node")
 
-        result = self.cloned_node
-        self.cloned_node = None
-        self.cloned_target = None
+        result = node.cloned_node
+        node.cloned_node = None
+        node.cloned_target = None
         return result
 
     def clone(self) -> "MathExpression":  # type:ignore[override]
